@@ -97,13 +97,13 @@ func genCluster(r *mrand.Rand, prop, tier string) simcore.Case {
 			case x < 2 && cs.Cfg["workers"] == 1:
 				cs.Ops = append(cs.Ops, simcore.Op{K: "kill-job", A: []int64{at, 1 + int64(r.IntN(20))}})
 			case x < 2:
-				cs.Ops = append(cs.Ops, simcore.Op{K: "kill-all", A: []int64{at, 0, 1 + int64(r.IntN(20)), 1}}) // job and every worker
+				cs.Ops = append(cs.Ops, killAllOp(r, &cs, horizon, 1)) // job and every worker
 			case x == 2 && (survivors || cs.Cfg["workers"] == 1):
 				cs.Ops = append(cs.Ops, simcore.Op{K: "stop-worker", A: []int64{at, int64(r.IntN(3)), 1 + int64(r.IntN(20))}})
 			case survivors || cs.Cfg["workers"] == 1:
 				cs.Ops = append(cs.Ops, simcore.Op{K: "kill-worker", A: []int64{at, int64(r.IntN(3)), 1 + int64(r.IntN(20))}})
 			default:
-				cs.Ops = append(cs.Ops, simcore.Op{K: "kill-all", A: []int64{at, 0, 1 + int64(r.IntN(20)), 0}}) // every worker, the job survives
+				cs.Ops = append(cs.Ops, killAllOp(r, &cs, horizon, 0)) // every worker, the job survives
 			}
 		}
 		if r.IntN(3) == 0 {
@@ -121,23 +121,31 @@ func genCluster(r *mrand.Rand, prop, tier string) simcore.Case {
 				cs.Ops = append(cs.Ops, simcore.Op{K: "stop-worker", A: []int64{at, int64(r.IntN(3)), 1 + int64(r.IntN(20))}})
 			case 3:
 				cs.Ops = append(cs.Ops, simcore.Op{K: "partition", A: []int64{at, int64(r.IntN(3)), 5 + int64(r.IntN(20))}})
+			case 4:
+				cs.Ops = append(cs.Ops, killAllOp(r, &cs, horizon, 0))
 			default:
 				cs.Ops = append(cs.Ops, simcore.Op{K: "kill-worker", A: []int64{at, int64(r.IntN(3)), 1 + int64(r.IntN(20))}})
 			}
 		}
 	case "C16":
 		cs.Cfg["kin"] = pick(0, 1, 1)
-		cs.Cfg["reshards"] = pick(0, 1, 2, 3, 5)
+		cs.Cfg["reshards"] = pick(0, 1, 2, 3, 5, 8)
+		if r.IntN(3) == 0 {
+			// many small shards: finish notifications, hand-outs and discovery ticks crowd together
+			cs.Cfg["records"] = int64(2 + r.IntN(6))
+			cs.Cfg["reshards"] = pick(3, 5, 8)
+			cs.Cfg["pace_ms"] = pick(500, 2000)
+			cs.Cfg["poll_ms"] = pick(100, 300)
+		}
 		cs.Cfg["kinpre"] = pick(0, 30, 60, 100)
-		cs.Cfg["discover_s"] = pick(2, 10, 10, 30)
+		cs.Cfg["discover_s"] = pick(1, 2, 10, 30)
 		if r.IntN(2) == 0 {
 			nf := 1 + r.IntN(2)
 			for i := 0; i < nf; i++ {
-				at := faultTime(r, horizon)
 				if r.IntN(4) == 0 {
-					cs.Ops = append(cs.Ops, simcore.Op{K: "kill-all", A: []int64{at, 0, 1 + int64(r.IntN(20)), 1}}) // job and every worker
+					cs.Ops = append(cs.Ops, killAllOp(r, &cs, horizon, 1)) // job and every worker
 				} else {
-					cs.Ops = append(cs.Ops, simcore.Op{K: "kill-all", A: []int64{at, 0, 1 + int64(r.IntN(20)), 0}})
+					cs.Ops = append(cs.Ops, killAllOp(r, &cs, horizon, 0))
 				}
 			}
 		}
@@ -158,6 +166,19 @@ func genCluster(r *mrand.Rand, prop, tier string) simcore.Case {
 	}
 	sort.SliceStable(cs.Ops, func(i, j int) bool { return cs.Ops[i].A[0] < cs.Ops[j].A[0] })
 	return cs
+}
+
+// killAllOp: every worker (and with it the job, if withJob) dies and is restarted after d
+// seconds. One time in three the kill is placed so that the job forms the next assembly
+// (after the heartbeats expired and the new workers registered) right at a checkpoint tick.
+func killAllOp(r *mrand.Rand, cs *simcore.Case, horizonS int64, withJob int64) simcore.Op {
+	d := 1 + int64(r.IntN(20))
+	at := faultTime(r, horizonS)
+	if r.IntN(3) == 0 {
+		n := 1 + int64(r.IntN(int(horizonS/60)))
+		at = n*60000 - max(d, cs.Cfg["hb_s"])*1000 - int64(r.IntN(4000)) + 500
+	}
+	return simcore.Op{K: "kill-all", A: []int64{max(at, 0), 0, d, withJob}}
 }
 
 // faultTime: milliseconds of simulated time; biased to the windows around the
